@@ -370,13 +370,30 @@ func registerFS(ex *Executor) {
 		fv := ex.load(st, args[0].(Ptr)).(*FileV)
 		return fv.Name, cNext
 	}
-	I["os.Stat"] = func(ex *Executor, st *State, cc *CallCtx, args []Val) (Val, ctl) {
+	// os.Stat is a Go model (verifModelStat in models.go) over these two leaves
+	I["@verifStatRaw"] = func(ex *Executor, st *State, cc *CallCtx, args []Val) (Val, ctl) {
 		fs := ex.fsGet(st)
 		i := ex.fsFind(st, fs, ex.parseName(strOf(args[0])))
 		if i < 0 {
-			return TupleV{IfaceV{}, ex.mkErr(st, "ENOENT")}, cNext
+			return TupleV{smt.IntC(0), smt.IntC(0), smt.False}, cNext
 		}
-		return TupleV{IfaceV{}, IfaceV{}}, cNext
+		ino := fs.Inodes[fs.Entries[i].Ino]
+		return TupleV{ex.strLen(st, ino.Content), ino.Mode, smt.True}, cNext
+	}
+	I["@verifFStatRaw"] = func(ex *Executor, st *State, cc *CallCtx, args []Val) (Val, ctl) {
+		p := args[0].(Ptr)
+		if p.Obj == nil {
+			return TupleV{smt.IntC(0), smt.IntC(0), smt.False}, cNext
+		}
+		fv, ok := ex.load(st, p).(*FileV)
+		if !ok || fv.Closed {
+			return TupleV{smt.IntC(0), smt.IntC(0), smt.False}, cNext
+		}
+		ino := ex.fsGet(st).Inodes[fv.Ino]
+		return TupleV{ex.strLen(st, ino.Content), ino.Mode, smt.True}, cNext
+	}
+	I["@verifENOENT"] = func(ex *Executor, st *State, cc *CallCtx, args []Val) (Val, ctl) {
+		return ex.mkErr(st, "ENOENT"), cNext
 	}
 	I["os.IsNotExist"] = func(ex *Executor, st *State, cc *CallCtx, args []Val) (Val, ctl) {
 		iv := args[0].(IfaceV)
